@@ -649,7 +649,7 @@ def run_scripts(ctx, exe, d, bodies, label):
     return len(bad)
 
 
-def run_chibi(d, exprs, prelude_extra="", timeout=45, chunk=250, max_hard=3, stop=False, _single=False):
+def run_chibi(d, exprs, prelude_extra="", timeout=30, chunk=250, max_hard=3, stop=False, _single=False):
     """like scm.run_cases, but flushes after every case (so a killed process is blamed on the right case),
     uses a short timeout and gives up after max_hard crashes/timeouts.  Returns (results, hard);
     results may be shorter than exprs."""
@@ -687,7 +687,7 @@ def run_chibi(d, exprs, prelude_extra="", timeout=45, chunk=250, max_hard=3, sto
             verdict = "TIMEOUT" if rc == "TIMEOUT" else "CRASH rc=%s %s" % (rc, (err or "")[-200:].replace("\n", " | "))
             if rc == "TIMEOUT" and not _single:
                 # confirm on its own: a loaded machine must not turn into a false alarm
-                alone, _h = run_chibi(d, [exprs[n]], prelude_extra=prelude_extra, timeout=20, chunk=1, max_hard=1, _single=True)
+                alone, _h = run_chibi(d, [exprs[n]], prelude_extra=prelude_extra, timeout=15, chunk=1, max_hard=1, _single=True)
                 if alone and alone[0] != "TIMEOUT":
                     verdict = alone[0]
             res.append(verdict)
@@ -755,9 +755,13 @@ def run(ctx):
                        "(kind . value) on a trace list; chibi's trace is compared event by event with the extracted Coq machine's. "
                        "Streams: corpus, exhaustive enumeration of all scripts up to a node bound over a reduced grammar, hand-written "
                        "templates with random holes, seeded random scripts of 4..22 nodes. A script is distinct by its token list and "
-                       "non-trivial when it contains a throw/raise AND a wind/parameterize/handler/guard. Separately: travel-to-point! "
-                       "itself on every extent tree with <= 4 (thorough 5) points and every (here,target) pair + random larger trees, "
-                       "vs the SPEC wind_script.")
+                       "non-trivial when it contains a throw/raise AND a wind/parameterize/handler/guard. Deeper exhaustive streams over two "
+                       "small grammars (winds x call/cc x re-entry up to 7/9 nodes; parameters x handlers x guard x re-entry up to 5/6 nodes). "
+                       "dynamic-wind thunks may read a parameter; guard clauses are printed through 4 arms of guard-aux; (raise 999) is printed "
+                       "as a primitive error. Separately: travel-to-point! itself on every extent tree with <= 4 (thorough 5) points and every "
+                       "(here,target) pair + random larger trees, vs the SPEC wind_script; sexp_save_stack/sexp_restore_stack on generated "
+                       "stacks (incl. the growth boundary) vs the extracted stack model; 5 fixed programs escaping out of procedures called "
+                       "back from C.")
     from gen import c06_travel, c06_shapes
     c06_travel.regen(ctx)
     c06_shapes.check(ctx)          # the hand-mirrored Scheme definitions still have the mirrored text
@@ -803,6 +807,7 @@ def run(ctx):
     run_scripts(ctx, exe, d, rnd, "random")
     ctx.assume("escapes from inside a before/after thunk are excluded (R7RS leaves them unspecified); thunks only push trace symbols")
     ctx.assume("threads x continuations, and the behaviour of an exception nobody handles at the REPL top level, are outside this check")
+    ctx.assume("errors detected by primitives ((car 999)) are signalled as non-continuable exceptions to the current handler (chibi's behaviour; R7RS only says 'it is an error')")
     ctx.trust("the Python printer of DSL scripts to Scheme text (props/C06.py: scheme()) and the OCaml parser of the same token list")
 
 
